@@ -437,7 +437,7 @@ func init() {
 			ThoroughS:   240,
 			Legs: []Leg{
 				{Name: "D", QuickRuns: 960, Share: 0.7},
-				{Name: "OS", Prop: "C14S", QuickRuns: 32, Share: 0.3, Workers: 4},
+				{Name: "OS", Prop: "C14S", QuickRuns: 48, Share: 0.3, Workers: 4},
 			},
 		},
 		Gen: genC14,
